@@ -32,7 +32,7 @@ KNOWN = ("function-of-parameter", "python-keyword-parameter-name")
 def options_for(rng):
     return dict(
         params=rng.choice([0.15, 0.3, 0.45]),
-        regrefs=0.0,
+        regrefs=rng.choice([0.0, 0.0, 0.15]),   # measured-register arguments next to parameter arguments
         loops=rng.choice([0.0, 0.3]),
         arrays=rng.choice([0.3, 0.7]),
         kwlists=rng.choice([0.3, 0.6]),
